@@ -42,6 +42,10 @@ func init() {
 		panic(err)
 	}
 	corpusSeed, _ = strconv.ParseInt(os.Getenv("VERIF_CORPUS_SEED"), 10, 64)
+	if hx.Gen() == "v1" {
+		// root-module bindings have no exported MarshalFields / UnmarshalField / RequiredFields
+		formats = []string{"json", "pretty", "header", "path", "query"}
+	}
 	for _, p := range schema.Prims {
 		roots = append(roots, schema.P(p))
 	}
@@ -114,13 +118,13 @@ func encode(t schema.Type, rv reflect.Value, format string, excluded restlicodec
 		return w.Finalize(), err
 	case "query":
 		// the value as one query parameter "p", the way generated EncodeQueryParams writes a parameter
-		return restlicodec.BuildQueryParams(func(pw func(string) restlicodec.Writer) error {
+		return buildQuery(func(pw func(string) restlicodec.Writer) error {
 			return dyn.Marshal(S, t, rv, pw("p"))
 		})
 	case "query-fields":
 		// a record's fields as the parameters of a query (generated params structs do exactly this)
 		mf := ptr(rv).MethodByName("MarshalFields")
-		return restlicodec.BuildQueryParams(func(pw func(string) restlicodec.Writer) error {
+		return buildQuery(func(pw func(string) restlicodec.Writer) error {
 			res := mf.Call([]reflect.Value{reflect.ValueOf(pw)})
 			if e := res[0].Interface(); e != nil {
 				return e.(error)
@@ -158,24 +162,7 @@ func decode(t schema.Type, doc string, format string) (rv reflect.Value, err err
 		}
 		r = pr
 	case "query-fields":
-		var q restlicodec.QueryParamsReader
-		q, err = restlicodec.ParseQueryParams(doc)
-		if err != nil {
-			return rv, err
-		}
-		p := reflect.New(dyn.GoType(S, t))
-		uf := p.MethodByName("UnmarshalField")
-		err = q.ReadRecord(dyn.RequiredOf(t.Ref.Full()), func(reader restlicodec.Reader, field string) error {
-			res := uf.Call([]reflect.Value{reflect.ValueOf(reader), reflect.ValueOf(field)})
-			if e := res[1].Interface(); e != nil {
-				return e.(error)
-			}
-			if !res[0].Bool() {
-				return reader.Skip()
-			}
-			return nil
-		})
-		return p.Elem(), err
+		return decodeQueryFields(t, doc)
 	default:
 		panic("format " + format)
 	}
@@ -250,4 +237,11 @@ func nonTrivial(classes []string) bool {
 		return true
 	}
 	return false
+}
+
+func min3(n int) int {
+	if n > 3 {
+		return 3
+	}
+	return n
 }
